@@ -53,7 +53,7 @@ def _(e, c, a):
     return parts == ''
 
 
-@model(r'String::push_str$')
+@model(r'String::push_str$|<(std::string::)?String as AddAssign<&str>>::add_assign$')
 def _(e, c, a):
     s = un(a[0]); s.s = norm_parts(list(str_parts(s)) + list(str_parts(a[1]))); return mk_unit()
 
@@ -288,6 +288,15 @@ def _(e, c, a):
             'is_alphabetic': ch.isalpha(), 'is_digit': ch.isdigit()}[k]
 
 
+@model(r'slice::<impl \[u8\]>::(to_ascii_uppercase|to_ascii_lowercase)$')
+def _(e, c, a):
+    up = 'upper' in c
+    def cv(x):
+        if is_sym(x): return z3.If(z3.And(z3.UGE(x, 97), z3.ULE(x, 122)), x - 32, x) if up else z3.If(z3.And(z3.UGE(x, 65), z3.ULE(x, 90)), x + 32, x)
+        return (x - 32 if 97 <= x <= 122 else x) if up else (x + 32 if 65 <= x <= 90 else x)
+    return RVec([Cell(cv(cl.v)) for cl in deref_vec(a[0]).cells])
+
+
 @model(r'<impl (char|u8)>::(to_ascii_uppercase|to_ascii_lowercase)$')
 def _(e, c, a):
     x = un(a[0]); up = 'upper' in c
@@ -297,6 +306,14 @@ def _(e, c, a):
         return z3.If(z3.And(z3.UGE(x, 65), z3.ULE(x, 90)), x + 32, x)
     if up: return x - 32 if 97 <= x <= 122 else x
     return x + 32 if 65 <= x <= 90 else x
+
+
+@model(r'ascii::<impl \[u8\]>::eq_ignore_ascii_case$')
+def _(e, c, a):
+    xs, ys = deref_vec(a[0]).cells, deref_vec(a[1]).cells
+    if len(xs) != len(ys): return False
+    lo = lambda x: (z3.If(z3.And(z3.UGE(x, 65), z3.ULE(x, 90)), x + 32, x) if is_sym(x) else (x + 32 if 65 <= x <= 90 else x))
+    return zand([veq(lo(p.v), lo(q.v)) for p, q in zip(xs, ys)])
 
 
 @model(r'<impl (char|u8)>::eq_ignore_ascii_case$')
